@@ -1,4 +1,6 @@
 """Rule vocabulary over the extracted MIR (DESIGN.md section 4.2)."""
+import re
+
 from facts import Place, op_place, op_const, strip_generics, callee_is, fn_names
 from core import Unrecognised
 
@@ -317,10 +319,12 @@ def value_aliases(body, local, passthrough=PASS_OK, refs=True):
                 p = op_place(rv["op"])
                 if p is not None and p.local in al and all(e == "*" for e in p.proj):
                     src = p.local
-                elif p is not None and p.local in al and len(p.proj) == 2 and \
-                        isinstance(p.proj[0], list) and p.proj[0][0] == "d" and \
-                        p.proj[0][2] in ("Continue", "Ok", "Some", "Ready") and \
-                        isinstance(p.proj[1], list) and p.proj[1][0] == "f" and p.proj[1][1] == 0:
+                elif p is not None and p.local in al and len(p.proj) >= 2 and len(p.proj) % 2 == 0 and all(
+                        isinstance(p.proj[i], list) and p.proj[i][0] == "d" and
+                        p.proj[i][2] in ("Continue", "Ok", "Some", "Ready") and
+                        isinstance(p.proj[i + 1], list) and p.proj[i + 1][0] == "f" and p.proj[i + 1][1] == 0
+                        for i in range(0, len(p.proj), 2)):
+                    # `(x as Some).0`, also nested: `((x as Some).0 as Ok).0`
                     src = p.local
                     payload = True
             elif rv["k"] == "ref" and refs:
@@ -529,10 +533,49 @@ class Origins:
         return False
 
 
+def promoted_consts(body, c):
+    """constants assigned inside the promoted body a `const ..::promoted[i]` operand refers to"""
+    m = re.search(r"promoted\[(\d+)\]", c.get("c", "") if isinstance(c, dict) else "")
+    if not m:
+        return []
+    proms = body.j.get("promoted") or []
+    i = int(m.group(1))
+    if i >= len(proms):
+        return []
+    out = []
+    for blk in proms[i]:
+        for st in blk["stmts"]:
+            if st["s"] == "assign":
+                rv = st["rv"]
+                for key in ("op", "a", "b"):
+                    cc = op_const(rv.get(key)) if isinstance(rv.get(key), dict) else None
+                    if cc is not None:
+                        out.append(cc)
+                for x in rv.get("ops", []):
+                    cc = op_const(x)
+                    if cc is not None:
+                        out.append(cc)
+    return out
+
+
+class _ConstList(list):
+    """list of constants that also records the contents of promoted constants"""
+
+    def __init__(self, body):
+        super().__init__()
+        self.body = body
+
+    def append(self, c):
+        super().append(c)
+        for cc in promoted_consts(self.body, c):
+            super().append(cc)
+
+
 def origins(body, operand_or_place, transparent=TRANSPARENT, stop_calls=(), awaits_map=None,
             depth=40):
     """Backward def-use closure (flow-insensitive) of an operand."""
     o = Origins()
+    o.consts = _ConstList(body)
     if isinstance(operand_or_place, Place):
         start = operand_or_place
     else:
@@ -873,9 +916,10 @@ def reachable_bodies(prog, roots, stay=None, limit=4000):
     return list(seen.values())
 
 
-def deep_calls(body, operand):
-    """names of every call in the full backward closure of an operand"""
-    locs, _ = deep_locals(body, operand)
+def deep_calls(body, operand, stop=()):
+    """names of every call in the full backward closure of an operand; the closure does not look
+    through calls named in `stop` (sanitizers / declassifiers), which are themselves reported"""
+    locs, _ = deep_locals(body, operand, stop)
     names = set()
     for l in locs:
         for d in body.defs_of(l):
@@ -888,7 +932,7 @@ def deep_calls(body, operand):
     return names
 
 
-def deep_locals(body, operand):
+def deep_locals(body, operand, stop=()):
     """all locals in the full backward closure of an operand (every call is transparent in all args).
     Returns (locals, params) where params are (param local, first field index or None) pairs, so that
     different upvars of a closure/coroutine environment stay distinct."""
@@ -947,6 +991,8 @@ def deep_locals(body, operand):
                 for x in rv.get("ops", []):
                     visit(op_place(x))
             elif d[0] == "call":
+                if stop and callee_is(d[3]["func"], *stop):
+                    continue
                 for a in d[3]["args"]:
                     visit(op_place(a))
         for bb, k, pl, rv, st in body.partial_writes(l):
@@ -957,8 +1003,9 @@ def deep_locals(body, operand):
             for a in t["args"][1:]:
                 visit(op_place(a))
         if l in aw and aw[l].create is not None:
-            for a in aw[l].create["args"]:
-                visit(op_place(a))
+            if not (stop and callee_is(aw[l].create["func"], *stop)):
+                for a in aw[l].create["args"]:
+                    visit(op_place(a))
     return seen, params
 
 
